@@ -32,7 +32,9 @@ CHECKS = {'C01': {'level': 'exploration',
                  'DropColumn of one of the written columns landing at a drawn point INSIDE the body: what was queued for the dropped column vanishes '
                  'with it, every other write of the transaction must arrive | since round 8 generated transactions may end by obtaining typed column '
                  'accessors that they only read (txn.Int64(name).Get(): an update buffer that stays empty) | since round 9 one generated transaction '
-                 'in sixteen has an empty body (no effect, nothing emitted)',
+                 'in sixteen has an empty body (no effect, nothing emitted) | one generated transaction in six without DeleteAt steps starts by '
+                 'narrowing its selection to nothing (WithValue(col, never) and Count) before its point and key operations, which are independent of '
+                 'the selection',
          'assumptions': ["values are in the documented domain (strings <= 65535 bytes; SetAny/SetMany values have the column's Go type)",
                          'writes target rows that are live when issued (writes to dead offsets are outside the property)',
                          'histories are bounded: <= 3 blocks (offsets < 49152), ~30 actions, <= 12 steps per transaction'],
@@ -80,7 +82,9 @@ CHECKS = {'C01': {'level': 'exploration',
                  'merge that returns a sub-slice of its delta | since round 7: DropColumn of a value column and its later re-creation under the same '
                  'name (nothing of the former values may show), dropped index names that come back on another column / with another rule | since '
                  'round 8 generated transactions may end by obtaining typed column accessors that they only read (txn.Int64(name).Get(): an update '
-                 'buffer that stays empty) | since round 9 one generated transaction in sixteen has an empty body (no effect, nothing emitted)',
+                 'buffer that stays empty) | since round 9 one generated transaction in sixteen has an empty body (no effect, nothing emitted) | one '
+                 'generated transaction in six without DeleteAt steps starts by narrowing its selection to nothing (WithValue(col, never) and Count) '
+                 'before its point and key operations, which are independent of the selection',
          'assumptions': ['in-flight observation happens from the same goroutine between two steps of the body (no latch is held there)',
                          'generator exclusions driven by known findings are counted in coverage.excluded_by_known_finding'],
          'tests': [{'run': '^TestC02$',
@@ -118,7 +122,8 @@ CHECKS = {'C01': {'level': 'exploration',
                  'DropColumn(indexName) is still attached to it inside the library, and its name may be in use again on another column); the indexes '
                  'are checked right afterwards | since round 8 generated transactions may end by obtaining typed column accessors that they only '
                  'read (txn.Int64(name).Get(): an update buffer that stays empty) | since round 9 one generated transaction in sixteen has an empty '
-                 'body (no effect, nothing emitted)',
+                 'body (no effect, nothing emitted) | one generated transaction in six without DeleteAt steps starts by narrowing its selection to '
+                 'nothing (WithValue(col, never) and Count) before its point and key operations, which are independent of the selection',
          'assumptions': ["index predicates decode the value with the column's own width (Reader.Int on an int16 column is zero-extended by design)",
                          'quiescent checks only (no transaction is committing while an index is read)'],
          'tests': [{'run': '^TestC03$',
@@ -226,7 +231,9 @@ CHECKS = {'C01': {'level': 'exploration',
                  '(an empty update buffer at the end of the transaction) | TestC01DropInSweep run for C06: the histories with a DropColumn inside a '
                  'delete sweep or inside a transaction body (see C01) on a primary with a logger; a follower that starts with the initial columns '
                  'and repeats the emitted commits and the DDL steps in the order in which they happened must equal the model (rows, every live '
-                 'column, Count) | since round 9 one generated transaction in sixteen has an empty body (no effect, nothing emitted)',
+                 'column, Count) | since round 9 one generated transaction in sixteen has an empty body (no effect, nothing emitted) | one generated '
+                 'transaction in six without DeleteAt steps starts by narrowing its selection to nothing (WithValue(col, never) and Count) before '
+                 'its point and key operations, which are independent of the selection',
          'assumptions': ['the replica has the same schema (columns created at the same history points) and the same index definitions',
                          'comparison happens when the primary is quiescent'],
          'tests': [{'run': '^TestC06$',
@@ -280,7 +287,11 @@ CHECKS = {'C01': {'level': 'exploration',
                  'obtaining typed column accessors that they only read (txn.Int64(name).Get(): an update buffer that stays empty) | since round 9 '
                  'Restore reads the snapshot (or its prefix) from one of four legal io.Readers chosen by the length: all at once, one byte per Read, '
                  'pieces of 1,2,3,5,8,13 bytes, or half of what is asked with the last data arriving together with io.EOF | since round 9 one '
-                 'generated transaction in sixteen has an empty body (no effect, nothing emitted)',
+                 'generated transaction in sixteen has an empty body (no effect, nothing emitted) | one generated transaction in six without '
+                 'DeleteAt steps starts by narrowing its selection to nothing (WithValue(col, never) and Count) before its point and key operations, '
+                 'which are independent of the selection | since round 9 one snapshot in three is written while 1..2 generated transactions commit '
+                 '(run by the hooks at a drawn point before the recorder closes): they travel in the log tail of the snapshot and the restored '
+                 'collection must equal the model including them',
          'assumptions': ['the restoring collection has the same columns (names, kinds, merge functions) as the original',
                          'vacuum is parked (24h interval), so the expire column is an ordinary int64 column here'],
          'tests': [{'run': '^TestC07$',
@@ -437,7 +448,8 @@ CHECKS = {'C01': {'level': 'exploration',
                  'whose own value satisfies the rule; non-trivial = an offset selected by an orphaned index at the drop was deleted, re-used and '
                  'looked at through that index | since round 8 generated transactions may end by obtaining typed column accessors that they only '
                  'read (txn.Int64(name).Get(): an update buffer that stays empty) | since round 9 one generated transaction in sixteen has an empty '
-                 'body (no effect, nothing emitted)',
+                 'body (no effect, nothing emitted) | one generated transaction in six without DeleteAt steps starts by narrowing its selection to '
+                 'nothing (WithValue(col, never) and Count) before its point and key operations, which are independent of the selection',
          'assumptions': ['free-parallel runs are not bit-reproducible: the replay re-runs the generated program (schedule left to the Go runtime)'],
          'tests': [{'run': '^TestC11$',
                     'checks': {'quick': 200, 'thorough': 2000},
@@ -496,7 +508,9 @@ CHECKS = {'C01': {'level': 'exploration',
                  'key, the other one must not resolve; a second key column is attempted (refused) and whatever the attempt registered is dropped '
                  'again | since round 8 generated transactions may end by obtaining typed column accessors that they only read '
                  '(txn.Int64(name).Get(): an update buffer that stays empty) | since round 9 one generated transaction in sixteen has an empty body '
-                 '(no effect, nothing emitted) | the key alphabet holds the empty key and keys that are prefixes of other keys ("k", "k1", "k10")',
+                 '(no effect, nothing emitted) | the key alphabet holds the empty key and keys that are prefixes of other keys ("k", "k1", "k10") | '
+                 'one generated transaction in six without DeleteAt steps starts by narrowing its selection to nothing (WithValue(col, never) and '
+                 'Count) before its point and key operations, which are independent of the selection',
          'assumptions': ['existence is judged against the committed table when the operation is issued (documented mechanism)',
                          'the key column is written only through InsertKey/UpsertKey/SetKey (SetAny on the key column bypasses the duplicate test '
                          'and is outside the property)'],
@@ -620,7 +634,11 @@ CHECKS = {'C01': {'level': 'exploration',
                  'TestC15ManyCommits: 2..3 blocks opened by ONE bulk transaction, then 600..3000 single-row transactions, most of them into one '
                  'block: all IDs distinct, per block increasing, exactly one commit each | since round 8 generated transactions may end by obtaining '
                  'typed column accessors that they only read (txn.Int64(name).Get(): an update buffer that stays empty) | since round 9 one '
-                 'generated transaction in sixteen has an empty body (no effect, nothing emitted)',
+                 'generated transaction in sixteen has an empty body (no effect, nothing emitted) | one generated transaction in six without '
+                 'DeleteAt steps starts by narrowing its selection to nothing (WithValue(col, never) and Count) before its point and key operations, '
+                 'which are independent of the selection | since round 9 half of the sequential histories run with a logger that REFUSES every 2nd '
+                 'or 3rd commit (it records the commit, then returns an error: an anonymous one, os.ErrClosed, io.ErrShortWrite, ENOSPC, ... in '
+                 'rotation); the collection must keep offering it every later commit, also the other blocks of the same transaction',
          'assumptions': ['record order at the logger is apply order (Append is called under the block latch)'],
          'tests': [{'run': '^TestC15$',
                     'checks': {'quick': 250, 'thorough': 2500},
@@ -674,7 +692,8 @@ CHECKS = {'C01': {'level': 'exploration',
                  'typed column accessors that they only read (txn.Int64(name).Get(): an update buffer that stays empty) | since round 8 a sort index '
                  'is dropped with DropIndex or with DropColumn(indexName) ("removes the column (or an index) with the specified name") and half of '
                  'the re-creations re-use the name of the index that was dropped last | since round 9 one generated transaction in sixteen has an '
-                 'empty body (no effect, nothing emitted)',
+                 'empty body (no effect, nothing emitted) | one generated transaction in six without DeleteAt steps starts by narrowing its '
+                 'selection to nothing (WithValue(col, never) and Count) before its point and key operations, which are independent of the selection',
          'assumptions': ['quiescent checks (no writer runs during Ascend)'],
          'tests': [{'run': '^TestC16$',
                     'checks': {'quick': 300, 'thorough': 3000},
@@ -790,7 +809,9 @@ CHECKS = {'C01': {'level': 'exploration',
                  'trigger, 2..4 writers that commit unique stores, merges and deletions into DIFFERENT blocks at the same moment; at quiescence '
                  'every committed store/deletion was reported exactly once with the stored value and nothing else was reported | since round 8 '
                  'generated transactions may end by obtaining typed column accessors that they only read (txn.Int64(name).Get(): an update buffer '
-                 'that stays empty) | since round 9 one generated transaction in sixteen has an empty body (no effect, nothing emitted)',
+                 'that stays empty) | since round 9 one generated transaction in sixteen has an empty body (no effect, nothing emitted) | one '
+                 'generated transaction in six without DeleteAt steps starts by narrowing its selection to nothing (WithValue(col, never) and Count) '
+                 'before its point and key operations, which are independent of the selection',
          'assumptions': ['bool columns are not watched (a false store is encoded as the delete op-code by design)',
                          'stores into a row that the same transaction also deletes are not judged (only its single delete call is)'],
          'tests': [{'run': '^TestC19$',
